@@ -152,8 +152,12 @@ class Run:
             'wall_s': round(time.time() - self.t0, 3),
             'violations': len(unlisted),
         }
-        os.makedirs(os.path.join(VERIF, 'evidence'), exist_ok=True)
-        with open(os.path.join(VERIF, 'evidence', self.prop + '.json'), 'w') as fh:
+        # development tools that run the checks on a patched scratch tree (seedcheck, benigncheck,
+        # selftest, seedsall with VERIF_REPO set) point this elsewhere so that the committed
+        # evidence is only ever written by a run against /repo itself
+        evdir = os.environ.get('VERIF_EVIDENCE_DIR') or os.path.join(VERIF, 'evidence')
+        os.makedirs(evdir, exist_ok=True)
+        with open(os.path.join(evdir, self.prop + '.json'), 'w') as fh:
             json.dump(ev, fh, indent=1)
         print('%s %s: %d obligations over %d functions (%s), %d discharged, %d known finding(s), '
               '%d violation(s), %.1fs'
